@@ -35,7 +35,8 @@ RULE = ("seeded plans: (grid class/shape/bounds/periodicity, registered operator
 PROBES = ["sched/regions", "sched/switches", "sched/switch_between_read_and_write", "probes/serial_branch_below_threshold",
           "probes/more_workers_than_rows", "probes/nine_point_stencil_prologue", "probes/route_scipy", "probes/route_sparse_matrix",
           "probes/route_compiled_ghost_setter", "probes/vectorized_operator_regions", "probes/dynamic_partition",
-          "probes/linked_value_sequence", "probes/sibling_condition_built_first", "probes/antiperiodic_axis"]
+          "probes/linked_value_sequence", "probes/sibling_condition_built_first", "probes/antiperiodic_axis",
+          "probes/operator_object_reused_with_other_dtype"]
 COMPONENTS = {
     "real": ["kernel source of pde.backends.numba.operators.{cartesian,cylindrical_sym} (executed by CPython, rewritten only at the "
              "prange loop), operator factories and registry, interpreted and compiled ghost-cell setters, fields, grids, scipy "
@@ -146,6 +147,8 @@ def gen_plan(rng, tier, idx):
                   "strategy": rng.choice(["random", "random", "pct", "chunk", "stall"]),
                   "p_switch": rng.choice([0.05, 0.3, 0.7, 1.0]), "pct_depth": rng.randint(1, 3), "chunk": rng.randint(1, 3),
                   "max_decisions": 4000},
+        # operator objects are used twice: first with real, then with complex data of the same shape (drawn last)
+        "reuse_dtype": rng.random() < 0.3,
     }
 
 
@@ -443,6 +446,8 @@ def execute(plan):
         else:
             agree("sparse Laplace matrix", common.make_laplace_from_matrix(mat, vec)(np.array(data, copy=True)))
             probe("route_sparse_matrix")
+    if plan.get("reuse_dtype") and viol is None:
+        _reuse_with_other_dtype(plan, grid, gspec, fcls, data, name, kw, bc, bcs, op, out_shape, nearly_uniform, fail, probe, log, stats)
     if plan.get("linked") and viol is None:
         _linked_value_sequence(plan, grid, gspec, fcls, data, name, kw, rank_in, out_shape, backend, fail, probe, log, stats)
     log.add("verdict", viol["class"] if viol else None)
@@ -451,6 +456,51 @@ def execute(plan):
             "nontrivial": total_regions > 0 and stats["sched"].get("switches", 0) > 0,
             "sig": digest_of([name, kw, gspec["cls"], plan["sched"]["workers"], plan["sched"]["partition"], sched.region_sigs]),
             "sched_steps": stats["sched"].get("preemption_points", 0), "events_head": log.head[:40]}
+
+
+def _reuse_with_other_dtype(plan, grid, gspec, fcls, data, name, kw, bc, bcs, op_no_bc, out_shape, nearly_uniform, fail, probe, log, stats):
+    """One operator object per backend, called first with real and then with complex data of the same shape: the second
+    answer must be the one the reference route gives for the complex data (nothing of the first call may stick)."""
+    from pde.backends import get_backend
+
+    d_real = np.array(np.real(data), dtype=float, copy=True)
+    d_cplx = d_real + 1j * np.roll(d_real, 1, axis=-1) * 0.75
+    fref = fcls(grid, np.array(d_cplx, copy=True))
+    try:
+        fref.set_ghost_cells(bcs)
+        ref = np.full(out_shape, np.nan, dtype=complex)
+        op_no_bc(np.array(fref._data_full, copy=True), ref)
+    except Exception as err:  # noqa: BLE001 - the reference route itself refuses complex data for this configuration
+        log.add("reuse-reference-refused", type(err).__name__)
+        return
+    inv_dx = np.concatenate([1 / np.asarray(grid.discretization, dtype=float), 1 / np.asarray(grid.discretization, dtype=float) ** 2])
+    scale = max(float(np.nanmax(np.abs(ref))) if ref.size else 0.0, float(np.nanmax(np.abs(fref._data_full))) * float(np.max(inv_dx)))
+    backends = ["numba"]
+    if not kw and not nearly_uniform and name in get_backend("scipy").get_registered_operators(grid):
+        backends.append("scipy")
+    for b in backends:
+        route = f"{b} operator object reused with complex data after real data"
+        try:
+            oper = grid.make_operator(name, bc, backend=b, **kw)
+            oper(np.array(d_real, copy=True))
+            val = np.asarray(oper(np.array(d_cplx, copy=True)))
+        except RuntimeError as err:
+            if b == "scipy" and "not uniform" in str(err):
+                continue
+            fail("C03/route-raised", f"{name}{kw} bc={bc} on {gspec}: {route} raised {type(err).__name__}: {err}")
+            return
+        except Exception as err:  # noqa: BLE001
+            fail("C03/route-raised", f"{name}{kw} bc={bc} on {gspec}: {route} raised {type(err).__name__}: {err}")
+            return
+        ok = val.shape == ref.shape and bool(np.allclose(val, ref, rtol=1e-10, atol=1e-10 * max(scale, 1e-30), equal_nan=True))
+        stats["routes"]["reuse:" + b] = stats["routes"].get("reuse:" + b, 0) + 1
+        log.add("reuse-route", b, ok)
+        probe("operator_object_reused_with_other_dtype")
+        if not ok:
+            diff = float(np.nanmax(np.abs(val - ref))) if val.shape == ref.shape else float("nan")
+            fail("C03/route-disagrees", f"{name}{kw} bc={bc} on {gspec}: {route} differs from make_operator_no_bc after set_ghost_cells "
+                 f"by {diff:.3e} (scale {scale:.3e}; result dtype {val.dtype})", key=f"C03/route-disagrees/reused-object/{b}")
+            return
 
 
 def _linked_value_sequence(plan, grid, gspec, fcls, data, name, kw, rank_in, out_shape, backend, fail, probe, log, stats):
@@ -594,6 +644,8 @@ def simplify(plan):
         yield variant(lambda p: p.update(antiperiodic=False))
     if plan.get("sibling_first"):
         yield variant(lambda p: p.update(sibling_first=False))
+    if plan.get("reuse_dtype"):
+        yield variant(lambda p: p.update(reuse_dtype=False))
     if plan.get("linked"):
         yield variant(lambda p: p.update(linked=None))
         if plan["linked"] != [1.0, 2.0]:
